@@ -38,6 +38,12 @@ CHECKS = {
  "C13": dict(
     text="(a) exhaustive grid of calculate_weight (hook): 9 durations x ~300 amounts: >= amount, monotone in amount and duration, matches the documented quadratic, rejects out-of-range durations. (b) explicit-state BFS (depth 5 quick / 7 thorough) over positions of amounts {1,2,3,1000} x 3 durations by 3 users, 1-2 flows with expansions, ticks, the permissionless snapshot placed anywhere, claims in any order: raw GLOBAL_WEIGHT == sum ADDRESS_WEIGHT, shares of the current epoch (share query) sum <= 1, second claim in an epoch pays nothing, claim == Rewards query immediately before, claim <= what the covered epochs can emit, payout == ledger increase.",
     note="20-epoch / 100-epoch histories are beyond the depth bound. One known finding (close before the epoch's snapshot) reported as KNOWN-FINDING.", tech="explicit-state model checking of the implementation (BFS) + exhaustive formula grid", ref="DESIGN.md §4 C13"),
+ "C09": dict(
+    text="Explicit-state BFS (depth 6 quick / 8 thorough) over the real fee_distributor + whale_lair + fee_collector (+ empty factories/router so ForwardFees runs): epoch creation (after a day / early), fee inflows {1,999,1e6}, bond/unbond/claim by 2-3 bonders, grace-period increases and attempted decreases, roots with grace 1..5 and 0-3 existing epochs: in every state claimed+available==total per epoch (claimed+rolled==total once expired), distributor balance >= sum available; each NewEpoch adds the expiring epoch's remainder to the new epoch exactly once and empties it; each claim pays exactly the ledgers' decrease == sum floor(total_e*share_e) recomputed from the bonding contract's Weight query, at most once per (address, epoch), never for epochs <= the epoch of first bonding, never from expired epochs.",
+    note="Bounded alphabets/depth; single distribution asset (changing it mid-history is not explored).", tech="explicit-state model checking of the implementation (BFS) with ghost ledger", ref="DESIGN.md §4 C09"),
+ "C20": dict(
+    text="Explicit-state BFS (depth 9 quick / 13 thorough) over the real epoch-manager with 0-3 hook receiver contracts and over fee_distributor::NewEpoch in a full fee hub: block time set to {genesis-1ns, genesis, boundary-1ns, boundary, boundary+1ns, boundary+2.5 durations}, creation attempts (also repeated in one block), hook add/remove by owner and stranger, duration changes: creation accepted iff the full duration elapsed (and not before genesis), id+1 and start+duration exactly, rejected attempts (errors and caught panics) change nothing, every registered receiver logs exactly one notification carrying the new epoch, stored epochs gap-free.",
+    note="Durations 1 and 3 days; bounded depth.", tech="explicit-state model checking of the implementation (BFS) over time schedules", ref="DESIGN.md §4 C20"),
 }
 NOT_BUILT = "check not built yet in this round (planned, see DESIGN.md)"
 props = [json.loads(l) for l in open('/verif/properties.jsonl')]
